@@ -826,3 +826,15 @@ Proof.
   rewrite Hn. unfold deref, oderef. cbn [fst snd]. apply map_ext. intros [k nid]. cbn [fst snd]. f_equal.
   unfold hnode, nval. change (@nil rds) with (map (rval rh) []). apply map_nth.
 Qed.
+
+(* the whole chain: rdataset objects -> values -> reference store *)
+Theorem obj_refines_reference c h oz z l :
+  wfc c -> Forall spec_valid h -> Forall spec_items_wf h -> RPo oz z -> RP c z l ->
+  Forall2 (fun x y => fst x = fst y /\ exists z', RPo (snd x) z' /\ RP c z' (snd y)) (obj_hist c h oz) (spec_hist c h l).
+Proof.
+  intros W V Fi HPo HP.
+  pose proof (obj_refines_value c h oz z Fi HPo) as R1.
+  pose proof (refines_hist c h z l W V HP) as R2.
+  pose proof (Forall2_compose _ _ _ _ _ R1 R2) as K.
+  eapply Forall2_impl; [|exact K]. intros x y (b & [A1 A2] & [B1 B2]). split; [congruence|]. exists (snd b). auto.
+Qed.
